@@ -51,12 +51,17 @@ func mathAbs(L *LState) int {
 }
 
 func mathAcos(L *LState) int {
-	L.Push(LNumber(math.Acos(float64(L.CheckNumber(1)))))
+	// math.Acos is Pi/2 - Asin(x) with Asin built on sqrt(1-x*x): both cancel near |x| = 1
+	// (acos(0.99999999) has 6 correct digits); 1-x and 1+x are exact there
+	x := float64(L.CheckNumber(1))
+	L.Push(LNumber(2 * math.Atan2(math.Sqrt(1-x), math.Sqrt(1+x))))
 	return 1
 }
 
 func mathAsin(L *LState) int {
-	L.Push(LNumber(math.Asin(float64(L.CheckNumber(1)))))
+	// see mathAcos: sqrt((1-x)*(1+x)) does not cancel where sqrt(1-x*x) does
+	x := float64(L.CheckNumber(1))
+	L.Push(LNumber(math.Atan2(x, math.Sqrt((1-x)*(1+x)))))
 	return 1
 }
 
